@@ -1,6 +1,7 @@
 import BronVerif.Model.CheckGraph
 import BronVerif.Model.CheckGraphs
 import BronVerif.Model.CheckGraphVec
+import BronVerif.Model.CheckGraphClaims
 import BronVerif.Lemmas.CheckGraphReceive
 import BronVerif.Lemmas.CheckGraphVec
 import BronVerif.Gen.CheckInventory
@@ -33,6 +34,12 @@ one member per row (`Model/CheckGraphVec.lean`). The per-component form of the B
 EVERY change of a partial signature (pairing non-degenerate at the generator); the summed form does
 not: a paired shift passes it and the recombined signature is invalid — which is why
 `checks_present` demands the partial-signature `Verify` inside the loop over the row keys.
+
+**(claims) `detect_redistribute_claim`, `last_claim_check_misses_coherent_deviation`** — coherent
+deviations. A previous holder that re-shares (its share + δ) AND claims the old public key was
+`pk + δ·G` sends mutually consistent messages; a newcomer without anchor catches it only because the
+aggregated new key is compared with EVERY sender's claim — one honest claim suffices. Comparing only
+one sender's claim (the last one) accepts the deviation when that sender is the deviator.
 
 **(C)** the tamper matrix itself (harness/c04*.go, Drive/C04.lean), including the relational
 operators (harness/c04_rel.go) over non-ideal access structures.
@@ -333,6 +340,84 @@ example : (7 : Nat) = 7 :=
 
 end rows
 
+
+/-! ## Part Q — claims about the past compared with an aggregate (coherent deviations) -/
+
+section claims
+open BronVerif.CheckGraph.Claims
+
+/-- **`oldPk = newPk` for EVERY sender's claim detects a shifted key.** `claims` are the old public
+keys claimed by the senders a next holder hears (in the order of its loop), `pk` the true old key,
+`newPk` the aggregate of the contributions. If at least one of those senders is honest (claims `pk`)
+and the aggregate is not `pk` — whatever the others claim, in particular a deviator claiming exactly
+`newPk` — the check aborts. -/
+theorem detect_redistribute_claim {X : Type} [DecidableEq X] (claims : List X) (pk newPk : X)
+    (hhonest : pk ∈ claims) (hne : newPk ≠ pk) : everyClaim claims newPk = false := by
+  cases h : everyClaim claims newPk with
+  | false => rfl
+  | true =>
+    unfold everyClaim at h
+    have := List.all_eq_true.1 h pk hhonest
+    exact absurd (of_decide_eq_true this).symm hne
+
+/-- … and when it accepts, every sender claimed the aggregate (so the aggregate is the true old key as
+soon as one sender is honest) -/
+theorem everyClaim_accepts_iff {X : Type} [DecidableEq X] (claims : List X) (newPk : X) :
+    everyClaim claims newPk = true ↔ ∀ c ∈ claims, c = newPk := by
+  unfold everyClaim
+  rw [List.all_eq_true]
+  constructor
+  · intro h c hc; exact of_decide_eq_true (h c hc)
+  · intro h c hc; exact decide_eq_true (h c hc)
+
+variable {G : Type} [AddCommGroup G]
+
+/-- a dealing substitution by sender `i` (contribution `+ D`) shifts the aggregate by exactly `D` -/
+theorem aggregate_redeal (contribs : List G) (i : Nat) (hi : i < contribs.length) (D : G) :
+    aggregate (contribs.set i (contribs[i] + D)) = aggregate contribs + D := by
+  unfold aggregate
+  rw [← List.sum_eq_foldl, ← List.sum_eq_foldl, List.sum_set']
+  simp only [hi, dite_true]
+  abel
+
+/-- **Coherent redeal + claim is detected by the every-sender form**: the honest contributions
+aggregate to `pk`, the deviator `i` re-shares `+ D` with `D ≠ 0` and may claim anything (e.g.
+`pk + D`); as long as another sender's honest claim `pk` is inspected, the next holder aborts. -/
+theorem detect_redistribute_coherent [DecidableEq G] (contribs claims : List G) (pk : G)
+    (hagg : aggregate contribs = pk) (i : Nat) (hi : i < contribs.length) (D : G) (hD : D ≠ 0)
+    (hhonest : pk ∈ claims) :
+    everyClaim claims (aggregate (contribs.set i (contribs[i] + D))) = false := by
+  apply detect_redistribute_claim claims pk _ hhonest
+  rw [aggregate_redeal contribs i hi D, hagg]
+  intro h
+  exact hD (by simpa using h)
+
+/-- **Checking only ONE sender's claim misses a coherent deviation by that sender.** `ZMod 11`, old
+key `pk = 4` held additively as `1 + 3` by senders 2 and 3 (loop order `[2, 3]`). Sender 3 re-shares
+`3 + 5` and claims the old key was `4 + 5 = 9`; sender 2 is honest. The aggregated new key is `9`.
+The last-claim form accepts (the new key changed and nobody noticed); the every-claim form rejects
+because of sender 2's honest claim. The same deviation by sender 2 (not last) is caught by both. -/
+theorem last_claim_check_misses_coherent_deviation :
+    let pk : ZMod 11 := 4
+    let honestContribs : List (ZMod 11) := [1, 3]
+    let contribs : List (ZMod 11) := honestContribs.set 1 (3 + 5)
+    let claims : List (ZMod 11) := [pk, pk + 5]
+    let newPk := aggregate contribs
+    aggregate honestContribs = pk ∧ newPk = 9 ∧ newPk ≠ pk ∧
+    lastClaim claims newPk = true ∧
+    everyClaim claims newPk = false ∧
+    lastClaim [pk + 5, pk] (aggregate (honestContribs.set 0 (1 + 5))) = false ∧
+    everyClaim [pk, pk] (aggregate honestContribs) = true := by
+  decide
+
+/-! non-vacuity -/
+example : everyClaim [(4 : ZMod 11), 9] 9 = false :=
+  detect_redistribute_claim [4, 9] 4 9 (by decide) (by decide)
+example : everyClaim [(4 : ZMod 11), 9] (aggregate ([(1 : ZMod 11), 3].set 1 (3 + 5))) = false :=
+  detect_redistribute_coherent [1, 3] [4, 9] 4 (by decide) 1 (by decide) 5 (by decide) (by decide)
+
+end claims
+
 /-! ## Part C — `checks_present`: the Go round functions contain the predicates of the check graph -/
 
 namespace Inventory
@@ -442,7 +527,8 @@ def needs : List Need := [
   { proto := cps!"redistribute", fn := cps!"Participant.Round3", neg := cps!"b.PrevVerificationVector.Equal(trustedVerificationVector)", tag := .sender cps!"p.otherPrevShareholders()" },
   { proto := cps!"redistribute", fn := cps!"Participant.Round3", neg := cps!"b.ZeroVerificationVector.Equal(trustedZeroVerificationVector)", tag := .sender cps!"p.otherPrevShareholders()" },
   { proto := cps!"redistribute", fn := cps!"Participant.Round3", neg := cps!"actualPartialPk.Equal(expectedPartialPk)", tag := .sender cps!"p.otherPrevShareholders()" },
-  { proto := cps!"redistribute", fn := cps!"Participant.Round3", neg := cps!"oldPk.Equal(newPk)", tag := .abortOnly },
+  -- (EVERY sender's claim: the guard sits inside the loop over all previous holders)
+  { proto := cps!"redistribute", fn := cps!"Participant.Round3", neg := cps!"oldPk.Equal(newPk)", tag := .abortOnly, rowLoop := cps!"p.otherPrevShareholders()" },
   { proto := cps!"redistribute", fn := cps!"Participant.Round3", call := cps!"nextScheme.Verify", args := [cps!"p.state.share", cps!"p.state.shareVerificationVector"], tag := .abortOnly },
   { proto := cps!"redistribute", fn := cps!"Participant.Round3", call := cps!"mpc.NewBaseShard", tag := .any },
   -- DKLs23 (softspoken): nonce commitment opening, multiplier output, GammaU / GammaV, pk sum
@@ -616,6 +702,19 @@ def vectorsPerRow (g : Graph) : Bool :=
 
 theorem graphs_well_formed :
     allGraphs.all (fun g => predsDeclared g && everyMessageBound g && taggedOrAggregate g && vectorsPerRow g) = true := by
+  decide
+
+/-- every coherent deviation names at least one predicate of its graph, and a graph lists a kind once -/
+def coherentDeclared (g : Graph) : Bool :=
+  (g.coherent.all fun c => !c.caughtBy.isEmpty && c.caughtBy.all fun n => g.preds.any (·.name == n)) &&
+  decide ((g.coherent.map (·.kind)).Nodup)
+
+/-- the claim-vs-aggregate predicate of redistribution inspects EVERY sender's claim -/
+def claimsEverySender : Bool :=
+  redistribute.preds.any fun p => p.name == "oldPk-equals-newPk" && p.everySender
+
+theorem coherent_well_formed :
+    allGraphs.all coherentDeclared = true ∧ claimsEverySender = true := by
   decide
 
 /-- the driver's guard on vector-valued leaves never fires on the shipped graphs: a site classified
